@@ -273,4 +273,13 @@ def evidence_list(r, pool, refs, mode=None):
         for _ in range(r.randint(1, 3)):
             sel.insert(r.randrange(len(sel) + 1), r.choice(sel))
         mode += '+dup'
-    return [by_inst[u]['ds'] for u in sel], mode
+    out = [by_inst[u]['ds'] for u in sel]
+    if out and r.random() < 0.12:
+        # the same SOP instance UID supplied again under ANOTHER series (conflicting duplicate): the first one counts
+        import copy
+        k = r.randrange(len(out))
+        twin = copy.deepcopy(out[k])
+        twin.SeriesInstanceUID = str(twin.SeriesInstanceUID) + '.77'
+        out.insert(r.randrange(k + 1, len(out) + 1), twin)
+        mode += '+conflict'
+    return out, mode
